@@ -164,3 +164,54 @@ Section Transparency.
     apply reference_is_transparent; try assumption. apply pure_truth_bool; exact Hp.
   Qed.
 End Transparency.
+
+(* ================================================================ what a hook receives does not depend on the other hooks *)
+(* with different selections on the exception hook, handlers carry neither type nor name (see Py/Sem.v, g8_hs) *)
+Definition g8_prog (H1 H2 : list string) (p : program) : bool :=
+  forallb (fun fd => g8_ss H1 H2 (f_body fd)) (p_funs p) && g8_ss H1 H2 (p_main p).
+(* h is the hook of a construct: neither a generic name nor an execution-level hook *)
+Definition construct_hook (h : string) : bool := negb (mem_str h generic_names).
+
+Section HookIndependence.
+  Variable D : data.
+  Variable analyses : list (analysis (earg (d_val D))).
+  Variable modpath : string.
+
+  (* what the analyses implementing h were told through h: (analysis index, hook, arguments) in order *)
+  Definition deliveries_to (h : string) (x : result D) : list (delivery (earg (d_val D))) :=
+    filter (fun d => String.eqb (d_hook d) h) (dels (eng (snd x))).
+
+  Theorem reference_hook_independent (H1 H2 : list string) (h : string) (p : program) (fuel : nat) (s : state D) :
+    observing_analyses D analyses -> list_building_pure D -> bool_truth D ->
+    construct_hook h = true -> mem_str h H1 = true -> mem_str h H2 = true ->
+    src_prog p = true -> g8_prog H1 H2 p = true ->
+    deliveries_to h (ref_run D analyses modpath H1 fuel p s) = deliveries_to h (ref_run D analyses modpath H2 fuel p s)
+    /\ visible D (ref_run D analyses modpath H1 fuel p s) = visible D (ref_run D analyses modpath H2 fuel p s).
+  Proof.
+    intros Hobs [mkl [Hl Ht]] Hb Hh Hin1 Hin2 Hs Hk.
+    unfold construct_hook in Hh. apply negb_true_iff in Hh.
+    unfold src_prog in Hs. unfold g8_prog in Hk.
+    apply andb_true_iff in Hs; destruct Hs as [Hsf Hsm]. apply andb_true_iff in Hk; destruct Hk as [Hkf Hkm].
+    assert (Hf : forallb (fun_g8 H1 H2) (p_funs p) = true).
+    { apply forallb_forall. intros fd Hin. unfold fun_g8. rewrite forallb_forall in Hsf, Hkf. rewrite (Hsf fd Hin), (Hkf fd Hin). reflexivity. }
+    assert (T : sim2 (d_val D) (d_world D) h eq (ref_run D analyses modpath H1 fuel p) (ref_run D analyses modpath H2 fuel p)).
+    { unfold ref_run. eapply hi_module; eauto. }
+    specialize (T s s (conj (conj eq_refl (conj eq_refl (conj eq_refl eq_refl))) eq_refl)).
+    destruct T as [Tr [[Tw [Tg [Tf Te]]] Tp]]. apply rres_eq_eq in Tr. split.
+    - exact Tp.
+    - unfold visible. repeat (apply f_equal2; [|assumption]). exact Tr.
+  Qed.
+
+  (* the same for the instrumented program, through the refinement theorem *)
+  Theorem instrumented_hook_independent (H1 H2 : list string) (h : string) (p : program) (fuel : nat) (s : state D) :
+    observing_analyses D analyses -> pure_truth D -> list_building_pure D ->
+    construct_hook h = true -> mem_str h H1 = true -> mem_str h H2 = true ->
+    src_prog p = true -> ok_prog H1 p = true -> ok_prog H2 p = true -> g8_prog H1 H2 p = true ->
+    deliveries_to h (inst_run D analyses modpath H1 fuel p s) = deliveries_to h (inst_run D analyses modpath H2 fuel p s).
+  Proof.
+    intros Hobs Hp Hl Hh Hin1 Hin2 Hs Ho1 Ho2 Hk.
+    rewrite (instrumented_is_reference D analyses modpath H1 p fuel s Hp Hs Ho1).
+    rewrite (instrumented_is_reference D analyses modpath H2 p fuel s Hp Hs Ho2).
+    apply reference_hook_independent; try assumption. apply pure_truth_bool; exact Hp.
+  Qed.
+End HookIndependence.
